@@ -49,6 +49,10 @@ Lemma gen_extrude_is_model : forall nv iscell t pz t0 t1,
   gen_line_levels pz t0 t1 = line_levels pz t0 t1 /\ gen_line_iscell pz t0 t1 = line_iscell pz t0 t1.
 Proof. intros; repeat split. Qed.
 
+(* the lookup keys of to_meshtri are computed in 64-bit integers *)
+Lemma gen_key_bits_is_64 : gen_key_bits = 64.
+Proof. reflexivity. Qed.
+
 (* ---- quadrilateral -> 2 triangles: the children's signed areas add up to the parent's, for EVERY quadrilateral *)
 Lemma quad_split_area : forall v0 v1 v2 v3 : pt2,
   let P := [v0; v1; v2; v3] in
